@@ -51,6 +51,19 @@ func (r *runner) judge(what string, m, t obs) string {
 	return fmt.Sprintf("%s answered %v, but in the twin history without close/drop/gc it answers %v", what, m, t)
 }
 
+// judgeStrict is for operations that touch nothing but a live instance's own state (moving a
+// reference between live instances, calling a local function): not even an exit error is an
+// acceptable difference there.
+func (r *runner) judgeStrict(what string, m, t obs) string {
+	if m.Out.Kind == wz.KInternal {
+		return fmt.Sprintf("%s: internal failure: %v (twin history without close/drop/gc: %v)", what, m, t)
+	}
+	if sameObs(m, t) {
+		return ""
+	}
+	return fmt.Sprintf("%s (which involves live instances only) answered %v, but in the twin history without close/drop/gc it answers %v", what, m, t)
+}
+
 func (r *runner) usable(h int) bool {
 	return h >= 0 && h < len(r.main.insts) && r.main.insts[h] != nil
 }
@@ -148,7 +161,7 @@ func (r *runner) do(i int, s step) (viol, harness string) {
 		if ot.Out.Kind != wz.KOK {
 			return "", fmt.Sprintf("%s failed in the twin: %v", what, ot)
 		}
-		return r.judge(what, om, ot), ""
+		return r.judgeStrict(what, om, ot), ""
 	case "long":
 		if !r.live(s.Inst) {
 			m.calls = append(m.calls, &callH{finished: true, result: obs{Out: wz.Outcome{Kind: "skipped"}}})
@@ -274,7 +287,14 @@ func (r *runner) probe(i int, s step) string {
 				}
 				om, ot := r.main.call(h, p.Name, args...), r.twin.call(h, p.Name, args...)
 				r.res.probes++
-				if msg := r.judge(fmt.Sprintf("after step %d %v: probe i%d.%s%v of a surviving instance", i, s, h, p.Name, args), om, ot); msg != "" {
+				what := fmt.Sprintf("after step %d %v: probe i%d.%s%v of a surviving instance", i, s, h, p.Name, args)
+				var msg string
+				if p.Local {
+					msg = r.judgeStrict(what, om, ot)
+				} else {
+					msg = r.judge(what, om, ot)
+				}
+				if msg != "" {
 					return msg
 				}
 			}
